@@ -27,6 +27,20 @@ def programs(seed, n):
     progs = []
     for i in range(n):
         steps, nsn, alive, files = gen.history(rng, rng.randint(2, 5), 3600, allow_instant=True)
+        cfg = gen.rand_cfg(rng)
+        if i % 4 == 1:
+            # packs written under different compression settings, then merged by a fast (verbatim) repack:
+            # one pack file then mixes uncompressed and compressed blobs
+            cfg = {"chunk": 64, "pack": rng.choice([200, 600, 2000]), "compression": 0}
+            f1 = gen.rand_files(rng, 3)
+            f2 = gen.evolve(rng, f1)
+            f3 = gen.evolve(rng, f2)
+            steps = [{"cmd": "backup", "files": f1}, {"cmd": "config", "compression": rng.choice([1, 3, 19])},
+                     {"cmd": "backup", "files": f2}, {"cmd": "backup", "files": f3}, {"cmd": "forget", "snaps": [rng.choice([0, 1])]},
+                     {"cmd": "prune", "opts": {"fast": True, "repack_all": rng.random() < 0.7, "max_repack": "unlimited", "max_unused": "0%",
+                                               "keep_delete": 0, "instant": rng.random() < 0.5}},
+                     {"cmd": "check"}]
+            files = f3
         # writers of packs other than backup
         extra = []
         for _ in range(rng.randint(0, 2)):
@@ -51,7 +65,7 @@ def programs(seed, n):
         for _ in range(nlose):
             lose.append({"cmd": "damage", "kind": "index", "which": rng.randint(0, 5)})
         tail = [{"cmd": "remember"}] + lose + [{"cmd": "repair_index", "read_all": rng.random() < 0.3}, {"cmd": "check"}]
-        progs.append({"id": "c08-%d-%d" % (seed, i), "seed": seed * 1000 + i, "cfg": gen.rand_cfg(rng), "probe": "step",
+        progs.append({"id": "c08-%d-%d" % (seed, i), "seed": seed * 1000 + i, "cfg": cfg, "probe": "step",
                       "steps": steps + extra + tail, "cut": "repair_index-after-loss", "lose_all": mode == 0})
     return progs
 
